@@ -4,7 +4,7 @@ From Coq Require Import ZArith Bool List String Permutation Sorted.
 From TV Require Import spec.Num spec.PyBase spec.PyLib model.GraphsIter.
 From TV Require Import gen.IRAst gen.Names gen.ExhaustAst gen.Exhaust gen.IterGraphs gen.GlueGen.
 From TV Require Import gen.AppendGen gen.GenerateIR.
-From TV Require proofs.Certs.
+From TV Require proofs.Certs proofs.Certs3Defs.
 From TV Require Import proofs.GenGenIR_equiv.
 Import ListNotations.
 
@@ -85,3 +85,39 @@ Theorem TIE_genir_iteration_comment : forall fuel rec_ iv out nxt o k,
   wp (to_ir_iteration_variable fuel rec_ (IgIterationNode iv out nxt) o k) (hasc ("*** Iteration over " ++ iv ++ " ***")).
 Proof. exact iteration_comment. Qed.
 Print Assumptions TIE_genir_iteration_comment.
+
+(** THE BRIDGE to proofs/Certs3Defs.v.  [aligned0 fe fk]: both parameter lists are tensor pointers, [same_params], [ty_same] of
+    the return types, and Certs3Defs.align on the two bodies returns [Some] -- with the phase [unit] and the role / taint side
+    conditions (cok, keep_atomic, drop_atomic) made trivial.  For EVERY definition, graph and capacity. *)
+Theorem TIE_genir_assemble_aligned0 : forall cap d g fe fa,
+  generate_ir cap d g GlueGen.KernelType_evaluate = Some fe ->
+  generate_ir cap d g GlueGen.KernelType_assemble = Some fa -> aligned0 fe fa = true.
+Proof. exact gen_assemble_aligned0. Qed.
+Print Assumptions TIE_genir_assemble_aligned0.
+
+Theorem TIE_genir_compute_aligned0 : forall cap d g fe fc,
+  generate_ir cap d g GlueGen.KernelType_evaluate = Some fe ->
+  generate_ir cap d g GlueGen.KernelType_compute = Some fc -> aligned0 fe fc = true.
+Proof. exact gen_compute_aligned0. Qed.
+Print Assumptions TIE_genir_compute_aligned0.
+
+(** the unary fact behind it: in EVERY kernel kind every atomic statement is an Assignment, a DeclarationAssignment
+    (Declaration ...) or a Return (what Certs3Defs.atom_same can keep), and every parameter is a tensor pointer *)
+Theorem TIE_genir_atoms_wf : forall cap d g k f,
+  generate_ir cap d g k = Some f -> wfS (fd_body f) = true /\ forallb param_form (fd_params f) = true.
+Proof. exact gen_atoms_wf. Qed.
+Print Assumptions TIE_genir_atoms_wf.
+
+(** the general bridge: the declarative relation implies the decision procedure (trivial side conditions) *)
+Theorem TIE_genir_sub_align0 : forall sE sK, Sub sE sK -> wfS sE = true -> align0 sE sK = Some tt.
+Proof. exact sub_align0. Qed.
+Print Assumptions TIE_genir_sub_align0.
+
+(** (b) input_safe_cert is NOT proved.  Its unrestricted form is false: a graph carrying an output layer of an input tensor
+    (never produced by to_iteration_graphs) yields a kernel that fails the certificate.  The statement to prove is
+    [gen_input_safe_full] (hypothesis [graph_outputs_of d g = true]: every output layer belongs to definition.output_variable). *)
+Theorem TIE_genir_input_safe_unrestricted_fails :
+  exists f, generate_ir None ex_d ex_g_foreign GlueGen.KernelType_evaluate = Some f
+            /\ proofs.Certs2Input.input_safe_cert f = false /\ graph_outputs_of ex_d ex_g_foreign = false.
+Proof. exact gen_input_safe_unrestricted_fails. Qed.
+Print Assumptions TIE_genir_input_safe_unrestricted_fails.
